@@ -89,6 +89,10 @@ type c10dResult struct {
 	MS        int64    `json:"ms"`
 }
 
+// c10dBudget: a family that takes far longer than it does on a healthy tree (≈ 15 s) stops here; the
+// remaining scenarios are answered "skipped" (what was observed up to then is judged as usual)
+const c10dBudget = 90 * time.Second
+
 type c10dSDK struct{ interfaces.DeviceServiceSDK }
 
 func (c10dSDK) UpdateDeviceOperatingState(string, models.OperatingState) error { return nil }
@@ -459,6 +463,8 @@ func runC10Device(sc c10dScenario) c10dResult {
 func TestVerifC10Driver(t *testing.T) {
 	lines, w, closeIO := verifIO(t)
 	defer closeIO()
+	notSetUp := 0
+	started := time.Now()
 	for _, l := range lines {
 		var sc c10dScenario
 		if err := json.Unmarshal([]byte(l), &sc); err != nil {
@@ -467,9 +473,16 @@ func TestVerifC10Driver(t *testing.T) {
 			continue
 		}
 		// tell the supervisor which scenario is running, should the process die
+		if (notSetUp >= 3 || time.Since(started) > c10dBudget) && !sc.AbsOnly {
+			w.WriteString("{\"skipped\":true}\n")
+			continue
+		}
 		fmt.Fprintf(os.Stderr, "C10-RUNNING %s\n", sc.Name)
 		t0 := time.Now()
 		r := runC10Device(sc)
+		if !r.Setup && !sc.AbsOnly {
+			notSetUp++
+		}
 		r.MS = time.Since(t0).Milliseconds()
 		b, _ := json.Marshal(r)
 		w.Write(b)
@@ -677,6 +690,8 @@ func runC10Probe(sc c10pScenario) c10pResult {
 func TestVerifC10Probe(t *testing.T) {
 	lines, w, closeIO := verifIO(t)
 	defer closeIO()
+	wedged := 0
+	started := time.Now()
 	for _, l := range lines {
 		var sc c10pScenario
 		if err := json.Unmarshal([]byte(l), &sc); err != nil {
@@ -684,9 +699,17 @@ func TestVerifC10Probe(t *testing.T) {
 			w.Flush()
 			continue
 		}
+		if wedged >= 3 || time.Since(started) > c10dBudget {
+			// enough evidence that probe does not come back on this tree; do not spend 30 s on each remaining host
+			w.WriteString("{\"skipped\":true}\n")
+			continue
+		}
 		fmt.Fprintf(os.Stderr, "C10-RUNNING %s\n", sc.Name)
 		t0 := time.Now()
 		r := runC10Probe(sc)
+		if !r.Returned {
+			wedged++
+		}
 		r.MS = time.Since(t0).Milliseconds()
 		b, _ := json.Marshal(r)
 		w.Write(b)
